@@ -468,4 +468,116 @@ func c01(c *ctx) {
 	for k := 0; k < 6; k++ {
 		c01race(c, k)
 	}
+	nb := 12
+	if c.thorough() {
+		nb = 150
+	}
+	for k := 0; k < nb; k++ {
+		c01burst(c, k)
+	}
+}
+
+// burst delivery: many records of ONE stream are handed to the deplex goroutines of several
+// connections at the same time while the application reads in small pieces — real goroutine
+// concurrency on the receive path (monitors only; no model rows because the schedule is the runtime's)
+func c01burst(c *ctx, k int) {
+	r := c.r
+	nconn := 2 + r.intn(7)
+	method := byte(r.intn(4))
+	nframes := 1500
+	tag := fmt.Sprintf("burst #%d method=%d conns=%d frames=%d", k, method, nconn, nframes)
+	synctest.Run(func() {
+		var key [32]byte
+		copy(key[:], r.bytes(32))
+		rg := newPairRig(method, key, nconn, false, false, time.Hour)
+		st, err := rg.S[0].sesh.OpenStream()
+		if err != nil {
+			return
+		}
+		var written []byte
+		for f := 0; f < nframes; f++ {
+			d := r.bytes(1 + r.intn(12))
+			n, _ := st.Write(d)
+			written = append(written, d[:n]...)
+		}
+		synctest.Wait()
+		// collect the records in send order (sequence order) from all connections
+		type rec struct {
+			seq uint64
+			b   []byte
+		}
+		var recs []rec
+		for _, cn := range rg.S[0].conns {
+			for {
+				b := cn.pop()
+				if b == nil {
+					break
+				}
+				_, seq, _, _, err := mux.VerifDecode(method, key, b)
+				if err != nil {
+					c.o.V("C01 undecodable-record", map[string]any{"tag": tag})
+					return
+				}
+				recs = append(recs, rec{seq, b})
+			}
+		}
+		for i := range recs { // sort by seq
+			for j := i + 1; j < len(recs); j++ {
+				if recs[j].seq < recs[i].seq {
+					recs[i], recs[j] = recs[j], recs[i]
+				}
+			}
+		}
+		var got []byte
+		var gmu sync.Mutex
+		done := make(chan struct{})
+		var bst *mux.Stream
+		go func() {
+			defer close(done)
+			cn, err := rg.S[1].sesh.Accept()
+			if err != nil {
+				return
+			}
+			bst = cn.(*mux.Stream)
+			b := make([]byte, 8)
+			for {
+				n, err := bst.Read(b[:1+len(got)%7])
+				if err != nil {
+					return
+				}
+				gmu.Lock()
+				got = append(got, b[:n]...)
+				gmu.Unlock()
+			}
+		}()
+		// consecutive frames go to different connections, all at once
+		for i, rc := range recs {
+			rg.S[1].conns[i%nconn].in <- rc.b
+		}
+		synctest.Wait()
+		gmu.Lock()
+		g := append([]byte(nil), got...)
+		gmu.Unlock()
+		if !bytes.Equal(g, written) {
+			d := 0
+			for d < len(g) && d < len(written) && g[d] == written[d] {
+				d++
+			}
+			c.o.V("C01 bytes-read-differ-from-bytes-written", map[string]any{"tag": tag, "written_len": len(written), "read_len": len(g), "first_diff": d,
+				"via": "concurrent delivery of consecutive frames on different connections with a small-read reader"})
+		}
+		if rg.S[0].sesh.IsClosed() || rg.S[1].sesh.IsClosed() {
+			c.o.V("C01 healthy-session-closed", map[string]any{"tag": tag})
+		}
+		rg.S[0].sesh.Close()
+		rg.S[1].sesh.Close()
+		for s := 0; s < 2; s++ {
+			for _, cn := range rg.S[s].conns {
+				cn.Close()
+			}
+		}
+		synctest.Wait()
+		<-done
+	})
+	c.o.case_(tag, true)
 }
